@@ -447,6 +447,28 @@ def exact_curve(rng, n=None):
     return pts, 'exact:' + kind
 
 
+def sweep_back_curve(rng):
+    """A strictly convex (or concave) run of many hull vertices followed by one sample that sweeps most of them off the
+    stack in a single step and lies EXACTLY on the line through two consecutive earlier vertices: the pop loop has to run
+    for many iterations and to stop on an exact zero turn."""
+    m = int(rng.integers(9, 30))
+    k = np.arange(m, dtype=float)
+    sign = 1.0 if rng.random() < 0.5 else -1.0
+    y = sign * k * k                                   # vertices (k, +-k^2): every one is a hull vertex of its side
+    j = int(rng.integers(0, max(1, m - 8)))            # the final sample lies on the line through vertices j and j+1
+    s = int(rng.integers(m - j + 1, m - j + 12))
+    xe = k[j] + s
+    ye = y[j] + s * (y[j + 1] - y[j])
+    x = np.concatenate((k, [xe]))
+    yy = np.concatenate((y, [ye]))
+    tail = int(rng.integers(0, 4))
+    if tail:                                            # and a few more samples afterwards
+        x = np.concatenate((x, xe + np.arange(1, tail + 1)))
+        yy = np.concatenate((yy, ye + sign * rng.integers(0, 5, tail).astype(float) * np.arange(1, tail + 1)))
+    pts = np.column_stack((x + float(rng.integers(-3, 4)), yy - min(0.0, float(yy.min()))))
+    return np.ascontiguousarray(pts), 'exact:sweep-back'
+
+
 DIRS = [(1, 0), (0, 1), (1, 1), (1, -1), (2, 1), (1, 2), (2, -1), (1, -2), (3, 1), (1, -3)]
 
 
@@ -559,7 +581,9 @@ def cases(rng, tier, shard, nshards):
     yield {'kind': 'chain', 'points': gen.long_spiky(rng, 3000, 6000), 'family': 'long-spiky', 'layout': 'C'}
     for i in range(nchain):
         r = rng.random()
-        if r < 0.45:
+        if r < 0.03:
+            pts, fam = sweep_back_curve(rng)
+        elif r < 0.45:
             pts, fam = exact_curve(rng)
         elif tier == 'thorough' and r < 0.452:
             pts, meta = gen.curve(rng, nmax=3000, nmin=400)
